@@ -53,6 +53,10 @@ func c16(r *Run) {
 		local = &net.UDPAddr{IP: net.ParseIP("2001:db8::90"), Port: 6881}
 	}
 	pop := NewPop(r)
+	if ch.Chance(1, 4, "pop.alias") {
+		pop.Alias = true // the same address listed under two node ids in one reply
+		r.Probe("alias-in-neighbour-lists")
+	}
 	var starting []dht.Addr
 	cfg := &dht.ServerConfig{NoSecurity: true, QueryResendDelay: func() time.Duration { return delay },
 		StartingNodes: func() ([]dht.Addr, error) { return starting, nil }}
